@@ -10,7 +10,7 @@ the link theorems it uses:
                                       crosscheck=[('decapi', 'linkdecapi')]))
 
 On every run of that property's check the hook
-  1. builds `FitProps.Links` (incremental),
+  1. builds `FitProps.Links` and the other modules that state listed theorems (`MODULE_OF`; incremental),
   2. audits every listed theorem with `#print axioms` (must exist; axioms within {propext, Classical.choice, Quot.sound}) —
      the source scan for sorry / native_decide / ... of the framework already covers every file under lean/FitProps,
   3. runs the executable cross-check ops of `lean/Driver/Links.lean` on the operation lines of the named families
@@ -25,12 +25,29 @@ import time
 
 ALLOWED = {'propext', 'Classical.choice', 'Quot.sound'}
 
+# link theorems that live outside FitProps/Links.lean: name -> module that states them (built and imported by the audit on demand)
+MODULE_OF = {
+    'Fit.Links.Link_decode_is_apiOf': 'FitProps.LinksApi',
+    # (C) DecoderApi.run against (D') DecHist.history, call by call (FitProps/LinksHist.lean, notes/links.md)
+    'Fit.Links.Link_dechist_eq_api_partial': 'FitProps.LinksHist',
+    'Fit.Links.Link_dechist_values_partial': 'FitProps.LinksHist',
+    'Fit.Links.Link_C08_ops_values_partial': 'FitProps.LinksHist',
+    'Fit.Links.Link_C08_ops_values_partial_two': 'FitProps.LinksHist',
+    'Fit.Links.Link_C07_any_reader_partial': 'FitProps.LinksHist',
+}
+
+
+def _modules(names):
+    """the Lean modules that state the listed theorems (`FitProps.Links` always)"""
+    return ['FitProps.Links'] + sorted({MODULE_OF[n] for n in names if n in MODULE_OF})
+
 
 def _audit(ctx, F, names):
     os.makedirs(os.path.join(F.LEAN, 'Audit'), exist_ok=True)
     f = os.path.join(F.LEAN, 'Audit', f'Links_{ctx.prop}.lean')
     with open(f, 'w') as fh:
-        fh.write('import FitProps.Links\n')
+        for mod in _modules(names):
+            fh.write(f'import {mod}\n')
         for th in names:
             fh.write(f'#print axioms {th}\n')
     rc, out = F.sh(['lake', 'env', 'lean', f], cwd=F.LEAN)
@@ -60,11 +77,11 @@ def check_links(ctx, names, crosscheck=(), limit=None):
     import framework as F
     t = time.time()
     info = dict(theorems={}, crosscheck={})
-    ok, out = F.lake_build(ctx, ['FitProps.Links'])
+    ok, out = F.lake_build(ctx, _modules(names))
     if not ok:
         br = F.broken_decls(out)
         ctx.fail('proof', 'link theorems no longer check: ' +
-                 (', '.join(sorted(set(f'{n} ({f}:{l})' for f, l, n, m in br))[:8]) if br else 'lake build FitProps.Links failed'),
+                 (', '.join(sorted(set(f'{n} ({f}:{l})' for f, l, n, m in br))[:8]) if br else 'lake build ' + ' '.join(_modules(names)) + ' failed'),
                  broken=[dict(file=f, line=l, decl=n, msg=m[:300]) for f, l, n, m in br], detail=out[-3000:] if not br else '')
         ctx.cov.setdefault('extra', {})['links'] = info
         return
